@@ -301,6 +301,9 @@ def main():
     if not samples:
         samples = ["%s: %d paths, %d obligations (all closed by the simplifier)" % (h["name"], h["paths"], h["obligations"]) for h in all_h[:5]]
     nviol = len(violations)
+    if disch < oblig and not violations and not known_hits and not engine_errors:
+        # every undischarged obligation must surface as a violation, a known finding or an incompleteness
+        engine_errors.append("%d of %d obligations were not discharged but nothing was reported (engine inconsistency)" % (oblig - disch, oblig))
     ev = {
         "property_id": pid, "tier": tier, "seed": seed, "level": "model_checking",
         "coverage": {
